@@ -20,8 +20,22 @@ RULE = ("(a) every bundled rule taken as a host, with 1-2 extra labels, wildcard
 ASSUMPTIONS = ["reference: publicsuffix.org algorithm by linear scan, exception rule wins, longest match, wildcard = exactly one label, no match => no suffix",
                "bundled rule and TLD lists (ural.tld_data) used as data only", "hostnames with empty labels are not generated"]
 FLOORS = ["ref-normal", "ref-wildcard", "ref-exception", "ref-none", "bundled-wildcard-with-explicit-sibling", "synthetic-two-exceptions-one-parent",
-          "form-upper", "form-trailing-dot", "form-url", "tld-punycode", "tld-upper", "bare-suffix", "shared-trie-digest-compared"]
+          "form-upper", "form-trailing-dot", "form-url", "tld-punycode", "tld-upper", "bare-suffix", "shared-trie-digest-compared", "reference-selftest-vectors", "data-spot-entry"]
 PROBE_FLOORS = ["SuffixTrie._SuffixTrie__walk"]
+
+
+# from https://raw.githubusercontent.com/publicsuffix/list/master/tests/test_psl.txt (hosts lower-cased; None = no registrable domain)
+PSL_TEST_VECTORS = [("com", None), ("example.com", "example.com"), ("b.example.com", "example.com"), ("a.b.example.com", "example.com"),
+                    ("biz", None), ("domain.biz", "domain.biz"), ("b.domain.biz", "domain.biz"), ("a.b.domain.biz", "domain.biz"),
+                    ("uk.com", None), ("example.uk.com", "example.uk.com"), ("b.example.uk.com", "example.uk.com"), ("a.b.example.uk.com", "example.uk.com"), ("test.ac", "test.ac"),
+                    ("mm", None), ("c.mm", None), ("b.c.mm", "b.c.mm"), ("a.b.c.mm", "b.c.mm"),
+                    ("jp", None), ("test.jp", "test.jp"), ("www.test.jp", "test.jp"), ("ac.jp", None), ("test.ac.jp", "test.ac.jp"), ("www.test.ac.jp", "test.ac.jp"),
+                    ("kyoto.jp", None), ("test.kyoto.jp", "test.kyoto.jp"), ("ide.kyoto.jp", None), ("b.ide.kyoto.jp", "b.ide.kyoto.jp"), ("a.b.ide.kyoto.jp", "b.ide.kyoto.jp"),
+                    ("c.kobe.jp", None), ("b.c.kobe.jp", "b.c.kobe.jp"), ("a.b.c.kobe.jp", "b.c.kobe.jp"), ("city.kobe.jp", "city.kobe.jp"), ("www.city.kobe.jp", "city.kobe.jp"),
+                    ("ck", None), ("test.ck", None), ("b.test.ck", "b.test.ck"), ("a.b.test.ck", "b.test.ck"), ("www.ck", "www.ck"), ("www.www.ck", "www.ck"),
+                    ("us", None), ("test.us", "test.us"), ("www.test.us", "test.us"), ("ak.us", None), ("test.ak.us", "test.ak.us"), ("www.test.ak.us", "test.ak.us"),
+                    ("k12.ak.us", None), ("test.k12.ak.us", "test.k12.ak.us"), ("www.test.k12.ak.us", "test.k12.ak.us"),
+                    ("食狮.com.cn", "食狮.com.cn"), ("食狮.公司.cn", "食狮.公司.cn"), ("www.食狮.公司.cn", "食狮.公司.cn"), ("shishi.公司.cn", "shishi.公司.cn"), ("公司.cn", None), ("食狮.中国", "食狮.中国"), ("中国", None)]
 
 
 def judge(ctx, fns, host_spelling, host, exp, tag, wit):
@@ -184,6 +198,24 @@ def run(ctx):
                         directed.append("x." + h)
                         ctx.count("bundled-wildcard-with-explicit-sibling")
         if ctx.shard == 0:
+            # self-validation of the reference matcher against the canonical publicsuffix.org test vectors (registrable domain, or None);
+            # a reference that fails them is not a trustworthy oracle: the run must then be INCONCLUSIVE, never "held"
+            for host, want in PSL_TEST_VECTORS:
+                e = ref.expect(host)
+                got = None if (e is None or not e["valid"] or e["split"][0] == "") else e["domain"]
+                ctx.count("reference-selftest-vectors")
+                if got != want:
+                    raise RuntimeError("reference PSL matcher fails the publicsuffix.org test vector %r: got %r, want %r" % (host, got, want))
+            # spot entries of the bundled data (the lists are used as data by the oracle, so a lost entry would otherwise be invisible)
+            for r in ("com", "co.uk", "*.ck", "!www.ck", "*.kawasaki.jp", "!city.kawasaki.jp", "fr", "github.io", "blogspot.com", "pvt.k12.ma.us"):
+                ctx.count("data-spot-entry")
+                if r not in ruleset:
+                    ctx.viol("C08:data:bundled-rule-missing", {"host": r}, {"rule": r})
+            for t in ("com", "fr", "uk", "org", "io", "рф", "中国"):
+                if t not in set(data.TLDS):
+                    ctx.viol("C08:data:bundled-tld-missing", {"tld": t}, {"tld": t})
+            if len(rules) < 9000 or len(data.TLDS) < 1400:
+                ctx.viol("C08:data:bundled-list-truncated", {"host": "<lists>"}, {"rules": len(rules), "tlds": len(data.TLDS)})
             for h in directed:
                 exp = ref.expect(h)
                 for sp, cl in spellings(ctx, h, rng, True):
